@@ -1,13 +1,20 @@
-"""Reviewed-site tables for C04 (DESIGN §3: AUTO / TABLE / KNOWN).  Every entry: exact site key -> reason, plus optional
-machine-checked `requires` guards that are re-verified on every run."""
-import re
+"""Reviewed-site tables for C04 (DESIGN §3: AUTO / TABLE / KNOWN).
+
+SITES     exact site key -> reason (+ machine-checked `requires`, re-verified on every run)
+FUNCS     function-level reviews: every open site of the function is covered by ONE argument (an object invariant), with a
+          budget per site kind = the number of sites that were read; one site more than reviewed is a violation
+ALLOCS    allocation sites -> the bound on the size operand
+EXTERNAL  third-party callees -> the precondition that was read in the vendored source, and where it is established
+LOOPS     loops / recursion -> progress argument
+Keys do not contain line numbers."""
 
 FIELD_RANGES = [
-    # (ADT, field, lo, hi, why)
+    # (ADT, field, lo, hi, why) — verified at every non-derived construction / assignment, then assumed at reads
     ("common::lct::LCTHeader", "len", 0, 1020, "HDR_LEN is one byte counting 32-bit words"),
 ]
 
 SITES_LIST = []
+FUNCS = {}
 ALLOCS_LIST = []
 EXTERNAL_LIST = []
 LOOPS = {}
@@ -15,6 +22,16 @@ LOOPS = {}
 
 def site(key, why, requires=(), ordinal=None):
     SITES_LIST.append({"_key": key, "why": why, "requires": list(requires), "ordinal": ordinal})
+
+
+def sites(funcs, tail, why, requires=()):
+    """the same reviewed expression in several sibling functions (each named explicitly)"""
+    for f in funcs:
+        site("%s|%s" % (f, tail), why, requires)
+
+
+def func(path, budget, why, requires=()):
+    FUNCS[path] = {"_key": "func:" + path, "budget": dict(budget), "why": why, "requires": list(requires)}
 
 
 def alloc(key, why, requires=()):
@@ -35,3 +52,193 @@ def lookup(table, base, n):
 SITES = SITES_LIST
 ALLOCS = ALLOCS_LIST
 EXTERNAL = EXTERNAL_LIST
+
+CODEC = "<common::alccodec::%s as common::alccodec::AlcCodec>"
+ALCPKT_INV = [
+    # AlcPkt { data, data_alc_header_offset = lct.len, data_payload_offset = lct.len + payload-id length } with
+    # data_payload_offset <= data.len(): established by the guard in parse_alc_pkt, preserved by to_cache()/to_pkt() copies
+    ("dom_ok", "common::alc::parse_alc_pkt", r"fec_payload_id_block_length \+ lct_header\.len\) <= len\(data\)|\(fec_payload_id_block_length \+ lct_header.len\) <= .*len"),
+    ("constructed_in", "common::alc::AlcPkt", [r"^common::alc::parse_alc_pkt$", r"^common::alc::AlcPktCache.*::to_pkt$"]),
+    ("constructed_in", "common::alc::AlcPktCache", [r"^common::alc::AlcPkt.*::to_cache$"]),
+]
+sites([CODEC % "alcnocode::AlcNoCode" + "::get_fec_inline_payload_id", CODEC % "alcraptor::AlcRaptor" + "::get_fec_inline_payload_id",
+       CODEC % "alcraptorq::AlcRaptorQ" + "::get_fec_inline_payload_id", CODEC % "alcrs28::AlcRS28" + "::get_fec_inline_payload_id",
+       CODEC % "alcrs28underspecified::AlcRS28UnderSpecified" + "::get_fec_inline_payload_id", CODEC % "alcrs2m::AlcRS2m" + "::get_fec_payload_id"],
+      "index|Index<I> for [T]>::index(&pkt.data, Range::Range{start: pkt.data_alc_header_offset, end: pkt.data_payload_offset})",
+      "AlcPkt invariant: data_alc_header_offset <= data_payload_offset <= data.len() (parse_alc_pkt rejects packets shorter than header + payload id; "
+      "the cache copies data and offsets together)", ALCPKT_INV)
+site("receiver::blockdecoder::BlockDecoder::push|index|Index<I> for [T]>::index(&pkt.data, RangeFrom::RangeFrom{start: pkt.data_payload_offset})",
+     "AlcPkt invariant: data_payload_offset <= data.len()", ALCPKT_INV)
+site("common::lct::get_ext|index|Index<I> for [T]>::index(&data, Range::Range{start: (lct.header_ext_offset as usize), end: lct.len})",
+     "LCTHeader invariant from parse_lct_header: header_ext_offset <= len <= data.len() (both rejected otherwise); every caller passes the buffer the "
+     "header was parsed from (pkt.data with &pkt.lct, or data with the header just parsed)",
+     [("dom_ok", "common::lct::parse_lct_header", r"header_ext_offset <= \(len as u32\)"), ("dom_ok", "common::lct::parse_lct_header", r"len <= len\(data\)|len <= .*len\(&?data\)"),
+      ("constructed_in", "common::lct::LCTHeader", [r"^common::lct::parse_lct_header$"])])
+for nm in ("cci", "tsi", "toi"):
+    pass
+site("common::lct::parse_lct_header|copy_from_slice|<impl [T]>::copy_from_slice(&IndexMut<I> for [T; N]>::index_mut(&cci, RangeFrom::RangeFrom{start: ((16 - cci_len) as usize)}), &Index<I> for [T]>::index(&data, …",
+     "both slices have length cci_len: dst = cci[16 - cci_len ..] of a [u8; 16], src = data[4 .. 4 + cci_len] (affine equality outside the difference-fact domain); "
+     "cci_len <= 16 is guarded", [("guard", "common::lct::parse_lct_header", r"cci_len <= 16")])
+site("common::lct::parse_lct_header|copy_from_slice|<impl [T]>::copy_from_slice(&IndexMut<I> for [T; N]>::index_mut(&tsi, RangeFrom::RangeFrom{start: ((8 - tsi_len) as usize)}), &Index<I> for [T]>::index(&data, R…",
+     "both slices have length tsi_len: dst = tsi[8 - tsi_len ..] of a [u8; 8], src = data[cci_to .. cci_to + tsi_len]; tsi_len <= 8 is guarded",
+     [("guard", "common::lct::parse_lct_header", r"tsi_len <= 8")])
+site("common::lct::parse_lct_header|copy_from_slice|<impl [T]>::copy_from_slice(&IndexMut<I> for [T; N]>::index_mut(&toi, RangeFrom::RangeFrom{start: ((16 - toi_len) as usize)}), &Index<I> for [T]>::index(&data, …",
+     "both slices have length toi_len: dst = toi[16 - toi_len ..] of a [u8; 16], src = data[tsi_to .. tsi_to + toi_len]; toi_len <= 16 is guarded",
+     [("guard", "common::lct::parse_lct_header", r"toi_len <= 16")])
+site("common::alc::parse_alc_pkt|Overflow(Add)|Overflow(Add)(fec_payload_id_block_length, lct_header.len)",
+     "lct_header.len <= 1020 (field invariant R0) and the payload-id length is the constant 4 or 8 returned by the codec table", [], None)
+site("common::alc::parse_sct|index|Index<I> for [T]>::index(&ext, Range::Range{start: 4, end: 8})",
+     "ext.len() == 4 * (1 + sct_hi + sct_low + ert + slc) is checked first and sct_hi == 1 on this path, so len >= 8",
+     [("guard", "common::alc::parse_sct", r"len\(ext\) == expected_len|expected_len"), ("guard", "common::alc::parse_sct", r"sct_hi == 0")])
+site("common::alc::parse_sct|index|Index<I> for [T]>::index(&ext, Range::Range{start: 8, end: 12})",
+     "same length check; this arm is taken only when sct_low == 1 and sct_hi == 1, so len >= 12",
+     [("guard", "common::alc::parse_sct", r"expected_len"), ("guard", "common::alc::parse_sct", r"sct_low == 1")])
+
+# ---- counters that grow by one per event ----------------------------------------------------------------------------------------
+ONE_PER_EVENT = "incremented once per received symbol / block / FDT: 2^32..2^64 events are out of reach of any session"
+site(CODEC[:0] + "<fec::nocode::NoCodeDecoder as fec::FecDecoder>::push_symbol|Overflow(Add)|Overflow(Add)(self.nb_symbols, 1)",
+     "bounded by shards.len(): the increment is dominated by the empty-slot test (C02.R3)")
+site("<fec::rscodec::RSGalois8Codec as fec::FecDecoder>::push_symbol|Overflow(Add)|Overflow(Add)(self.nb_encoding_symbols_received, 1)",
+     "bounded by decode_shards.len() <= 256: the increment is dominated by the empty-slot test (C02.R3)")
+site("<fec::rscodec::RSGalois8Codec as fec::FecDecoder>::push_symbol|Overflow(Add)|Overflow(Add)(self.nb_source_symbols_received, 1)",
+     "bounded by decode_shards.len() <= 256 (same guard)")
+site("receiver::blockwriter::BlockWriter::write|Overflow(Add)|Overflow(Add)(self.sbn, 1)",
+     "one increment per block written in order; sbn equals the packet SBN (u32) on this path and the object ends before 2^32 blocks "
+     "(nb_blocks of the partition; out-of-range SBNs are skipped by push_to_block2)", [("guard", "receiver::blockwriter::BlockWriter::write", r"self\.sbn == sbn")])
+site("receiver::objectreceiver::ObjectReceiver::push_to_block2|Overflow(Add)|Overflow(Add)(self.nb_allocated_blocks, 1)", ONE_PER_EVENT)
+site("receiver::objectreceiver::ObjectReceiver::write_blocks|Overflow(Add)|Overflow(Add)(sbn, 1)", "sbn starts from a u32 and advances once per written block")
+site("receiver::objectreceiver::ObjectReceiver::write_blocks|Overflow(Add)|Overflow(Add)(self.blocks_offset, 1)", ONE_PER_EVENT)
+site("receiver::objectreceiver::ObjectReceiver::write_blocks|Overflow(Sub)|Overflow(Sub)(self.nb_allocated_blocks, 1)",
+     "the block being released was counted when it was initialised: completed implies initialised, and init() is followed by nb_allocated_blocks += 1 in push_to_block2")
+site("receiver::receiver::Receiver::push_fdt_obj|Overflow(Add)|Overflow(Add)(previous_fdt.fdt_id, 1)",
+     "fdt_id is the 20-bit FDT Instance ID parsed from EXT_FDT (masked with 0xFFFFF in parse_ext_fdt, checked by C06.R2)")
+site("receiver::objectreceiver::ObjectReceiver::nb_block|Overflow(Add)|Overflow(Add)(self.blocks_offset, VecDeque::len(&self.blocks))",
+     "blocks_offset counts blocks already written (<= number of blocks, one per event) and blocks.len() <= 2 * 2048 + 1")
+site("receiver::objectreceiver::ObjectReceiver::nb_block_completed|Overflow(Add)|Overflow(Add)(self.blocks_offset, Filter::count(Iterator::filter(VecDeque::iter(&self.blocks), closure o…)",
+     "same bound as nb_block")
+site("receiver::receiver::Receiver::gc_object_completed|Overflow(Sub)|Overflow(Sub)(before, after)",
+     "`after` is the length after retain(), which only removes entries: after <= before")
+
+# ---- ObjectReceiver block bookkeeping ----------------------------------------------------------------------------------------------
+site("receiver::objectreceiver::ObjectReceiver::push_to_block2|Overflow(Sub)|Overflow(Sub)((payload_id.sbn as usize), self.blocks_offset)",
+     "dominated by the early return `payload_id.sbn < self.blocks_offset as u32` (blocks_offset < 2^32 because it counts written blocks whose SBN is a u32)",
+     [("guard", "receiver::objectreceiver::ObjectReceiver::push_to_block2", r"\(self\.blocks_offset as u32\) <= payload_id\.sbn")])
+site("receiver::objectreceiver::ObjectReceiver::push_to_block2|index|VecDeque::index_mut(&self.blocks, block_offset)",
+     "blocks was just resized to block_offset + 1 when block_offset >= blocks.len() (resize_with on the guarded path), otherwise block_offset < blocks.len()",
+     [("guard", "receiver::objectreceiver::ObjectReceiver::push_to_block2", r"block_offset < VecDeque::len\(&self\.blocks\)|VecDeque::len\(&self\.blocks\) <= \(?block_offset")])
+site("receiver::objectreceiver::ObjectReceiver::write_blocks|index|VecDeque::index_mut(&self.blocks, block_offset)",
+     "loop condition: sbn >= blocks_offset && sbn - blocks_offset < blocks.len(), block_offset = sbn - blocks_offset",
+     [("guard", "receiver::objectreceiver::ObjectReceiver::write_blocks", r"\(sbn - self\.blocks_offset\) < VecDeque::len\(&self\.blocks\)")])
+site("receiver::objectreceiver::ObjectReceiver::push_to_block2|Overflow(Add)|Overflow(Add)(self.total_allocated_blocks_size, block_length)",
+     "block_length < 2^48 (u32 symbols x u16 symbol length, or partition::block_length <= a_large * e) and at most 2 * 2048 + 1 blocks are tracked: the sum stays below 2^61", [], 0)
+site("receiver::objectreceiver::ObjectReceiver::push_to_block2|Overflow(Add)|Overflow(Add)(self.total_allocated_blocks_size, block_length)",
+     "same bound (second occurrence: the accumulation after init)", [], 1)
+
+# ---- partition (receiver call: consistent (a_large, a_small, nb_a_large) from block_partitioning(b, l, e), sbn < nb_blocks) ---------
+func("common::partition::block_length", {"Overflow(Mul)": 7, "Overflow(Sub)": 4},
+     "called only from push_to_block2 with the triple computed by block_partitioning(b, l, e) from the same l and e, and (fix F6) with sbn < nb_blocks. "
+     "a_large <= b < 2^32 and e < 2^16, so the block sizes are < 2^48; nb_a_large * a_large <= t - a_small and t * e < l + e, so every product is <= l + e < 2^64 and every "
+     "subtraction l - k * size has k * size <= l (the blocks before `sbn` are part of the object)",
+     [("guard", "receiver::objectreceiver::ObjectReceiver::push_to_block2", r"self\.nb_blocks <= \(payload_id\.sbn as u64\)|\(payload_id\.sbn as u64\) < self\.nb_blocks")])
+func("common::partition::block_partitioning", {"Overflow(Mul)": 1, "Overflow(Sub)": 1},
+     "a_small = floor(t / n), hence a_small * n <= t: neither the product nor t - a_small * n can overflow (div_floor property, not expressible as an interval)")
+
+# ---- decoders -------------------------------------------------------------------------------------------------------------------------
+site("<fec::nocode::NoCodeDecoder as fec::FecDecoder>::decode|unwrap|Option::unwrap(Option::as_ref(&shard))",
+     "decode() runs the loop only after can_decode(): nb_symbols == shards.len(), and nb_symbols counts distinct filled slots (C02.R3), so every shard is Some",
+     [("guard", "<fec::nocode::NoCodeDecoder as fec::FecDecoder>::decode", r"can_decode")])
+site("<fec::rscodec::RSGalois8Codec as fec::FecDecoder>::decode|index|Vec::index(&self.decode_shards, i)",
+     "i < params.nb_source_symbols <= decode_shards.len() = nb_source_symbols + nb_parity_symbols (constructor)", [], 0)
+site("<fec::rscodec::RSGalois8Codec as fec::FecDecoder>::decode|index|Vec::index(&self.decode_shards, i)", "same bound", [], 1)
+site("<fec::rscodec::RSGalois8Codec as fec::FecDecoder>::decode|unwrap|Option::unwrap(Option::as_ref(&Vec::index(&self.decode_shards, i)))",
+     "dominated by the `is_none() -> return false` test on the same slot in the same iteration",
+     [("guard", "<fec::rscodec::RSGalois8Codec as fec::FecDecoder>::decode", r"decode_shards.* is (Some|None)")])
+site("fec::rscodec::RSGalois8Codec::new|Overflow(Add)|Overflow(Add)(nb_source_symbols, nb_parity_symbols)",
+     "both arguments are u32 / u8-derived values widened to usize by BlockDecoder::init (source_block_length u32, max_number_of_parity_symbols u32); "
+     "ReedSolomon::new has already rejected sums above 256")
+site("fec::raptorq::RaptorQDecoder::new|Overflow(Mul)|Overflow(Mul)((nb_source_symbols as u64), (encoding_symbol_length as u64))",
+     "arguments are a u32 symbol count and a u16 symbol length widened by BlockDecoder::init: product < 2^48")
+site("fec::raptorq::RaptorQDecoder::new|Overflow(Mul)|Overflow(Mul)(nb_source_symbols, encoding_symbol_length)",
+     "dominated by the parameter validation (K <= 56403, T <= 65535)", [("guard", "fec::raptorq::RaptorQDecoder::new", r"nb_source_symbols <= 56403|56403")])
+
+# ---- BlockWriter / decompression -------------------------------------------------------------------------------------------------------
+site("receiver::blockwriter::BlockWriter::decode_write_pkt|unwrap|Option::unwrap(Option::as_mut(&self.decoder))",
+     "decode_write_pkt is called only when cenc != Null (BlockWriter::write) and init_decoder() has run when the decoder was None: for the three non-Null encodings it stores Some",
+     [("guard", "receiver::blockwriter::BlockWriter::decode_write_pkt", r"self\.decoder is (Some|None)"), ("guard", "receiver::blockwriter::BlockWriter::write", r"self\.cenc == Cenc::Null")])
+site("receiver::blockwriter::BlockWriter::decoder_read|unwrap|Option::unwrap(Option::as_mut(&self.decoder))",
+     "callers: decode_write_pkt (decoder just initialised / known Some) and write() under `self.decoder.is_some()`",
+     [("guard", "receiver::blockwriter::BlockWriter::write", r"self\.decoder is Some")])
+site("receiver::blockwriter::BlockWriter::decode_write_pkt|index|Index<I> for [T]>::index(&pkt, RangeFrom::RangeFrom{start: offset})",
+     "offset is the sum of the byte counts returned by Decompress::write(&pkt[offset..]), each <= the slice length (io::Write contract of RingBuffer::write: max_size <= buf.len()), so offset <= pkt.len()")
+site("receiver::blockwriter::BlockWriter::decode_write_pkt|Overflow(Add)|Overflow(Add)(offset, size)", "same argument: offset + size <= pkt.len()")
+site("receiver::blockwriter::BlockWriter::decoder_read|index|Vec::index(&self.buffer, RangeTo::RangeTo{end: size})",
+     "size is the count returned by Read::read(&mut self.buffer) (flate2 decoder): <= buffer.len() by the io::Read contract", [], 0)
+site("receiver::blockwriter::BlockWriter::decoder_read|index|Vec::index(&self.buffer, RangeTo::RangeTo{end: size})", "same", [], 1)
+for d in ("DecompressDeflate", "DecompressGzip", "DecompressZlib"):
+    site("receiver::uncompress::%s::new|unwrap|Result::unwrap(RingBuffer::write(&ring, &pkt))" % d,
+         "RingBuffer::write never returns Err (every return is Ok(n))", [("no_err_return", "<tools::ringbuffer::RingBuffer as std::io::Write>::write")])
+
+RING_INV = ("object invariant of RingBuffer (constructor: producer = consumer = 0, buffer length fixed): producer < len and consumer < len (or len == 0 and both 0); "
+            "write() moves producer by at most write_size() = free slots - 1 and read() moves consumer by at most read_size() = used slots, wrapping at len, so "
+            "the two cursors never cross; every range below is inside [0, len) and every buf range inside [0, buf.len()) because max_size is clamped to buf.len(). "
+            "Checked by hand for the five branches of each function (see DESIGN §5 C04) — the relational argument (three variables) is outside the difference-fact domain")
+func("<tools::ringbuffer::RingBuffer as std::io::Read>::read", {"Overflow(Add)": 5, "Overflow(Sub)": 1, "copy_from_slice": 4, "index": 8}, RING_INV,
+     [("fields_written_only_in", "tools::ringbuffer::RingBuffer", ["producer", "consumer", "buffer"], [r"^<tools::ringbuffer::RingBuffer as std::io::(Read|Write)>::(read|write)$", r"^tools::ringbuffer::RingBuffer::new$"])])
+func("<tools::ringbuffer::RingBuffer as std::io::Write>::write", {"Overflow(Add)": 5, "Overflow(Sub)": 1, "copy_from_slice": 4, "index": 8}, RING_INV)
+func("tools::ringbuffer::RingBuffer::read_size", {"Overflow(Add)": 1, "Overflow(Sub)": 1}, RING_INV)
+func("tools::ringbuffer::RingBuffer::write_size", {"Overflow(Add)": 1, "Overflow(Sub)": 3}, RING_INV + "; the empty buffer returns 0 first (fix F8)",
+     [("guard", "tools::ringbuffer::RingBuffer::write_size", r"is_empty")])
+
+# ---- time -------------------------------------------------------------------------------------------------------------------------------
+site("receiver::fdtreceiver::FdtReceiver::push|unwrap|Result::unwrap(SystemTime::duration_since(&now, res))",
+     "on the edge `res < now`: duration_since(later, earlier) is Ok (ordered values, C19.R3 checks the operands)", [("guard", "receiver::fdtreceiver::FdtReceiver::push", r"res < now")])
+site("receiver::fdtreceiver::FdtReceiver::push|unwrap|Result::unwrap(SystemTime::duration_since(&res, now))",
+     "on the edge `now <= res`", [("guard", "receiver::fdtreceiver::FdtReceiver::push", r"now <= res|res < now")])
+site("receiver::fdtreceiver::FdtReceiver::get_server_time|op-trait|SystemTime::sub(now, offset)",
+     "offset = now' - sct with sct >= 1970 (ntp_to_system_time rejects earlier values): now - offset stays within the i64-second range of SystemTime")
+site("receiver::fdtreceiver::FdtReceiver::get_server_time|op-trait|SystemTime::add(now, offset)",
+     "offset = sct - now' with sct below year 2106 (32-bit NTP seconds): the sum is far inside the i64-second range of SystemTime")
+site("tools::ntp_to_system_time|op-trait|SystemTime::add(std::time::SystemTime::UNIX_EPOCH, Duration::from_micros(utc_micro))",
+     "utc_micro < 2^32 * 10^6 + 10^6 microseconds (32-bit NTP seconds): far inside the range of SystemTime")
+
+# ---- Receiver ------------------------------------------------------------------------------------------------------------------------------
+site("receiver::receiver::Receiver::gc_object_error|unwrap|Option::unwrap(BTreeSet::pop_first(&self.objects_error))",
+     "loop condition len() > max_objects_error >= 0: the set is not empty", [("guard", "receiver::receiver::Receiver::gc_object_error", r"max_objects_error < BTreeSet::len")])
+site("receiver::receiver::Receiver::push_fdt_obj|unwrap|Option::unwrap(FdtReceiver::fdt_meta(&fdt_current~2))",
+     "reached only when the instance state is Complete, which FdtWriter::complete sets from ObjectReceiver::complete(); FdtReceiver::push then sees obj.state == Completed "
+     "in the same call and stores meta = Some(create_meta()) before the state is read",
+     [("guard", "receiver::fdtreceiver::FdtReceiver::push", r"state is Completed")])
+
+# ---- writers -----------------------------------------------------------------------------------------------------------------------------------
+FSW = "<receiver::writer::objectwriterfs::ObjectWriterFS as receiver::writer::ObjectWriter>"
+site(FSW + "::write|unwrap|Option::unwrap(Option::as_mut(&RefMut::deref_mut(&inner).writer))", "dominated by `inner.writer.is_none() -> return`",
+     [("guard", FSW + "::write", r"writer is (Some|None)")])
+site(FSW + "::complete|unwrap|Option::unwrap(Option::as_mut(&RefMut::deref_mut(&inner).writer))", "dominated by `inner.writer.is_none() -> return`",
+     [("guard", FSW + "::complete", r"writer is (Some|None)")])
+site(FSW + "::error|unwrap|Option::unwrap(Option::as_ref(&RefMut::deref(&inner).destination))", "dominated by `inner.destination.is_some()`",
+     [("guard", FSW + "::error", r"destination is (Some|None)")])
+
+# =================================================================================================================================================
+alloc("receiver::objectreceiver::ObjectReceiver::init_blocks_partitioning|alloc|VecDeque::resize_with(&self.blocks, cmp::min((nb_blocks as usize), 2048), fn BlockDecoder::new)",
+      "size = min(nb_blocks, MAX_PREALLOCATED_BLOCKS = 2048) empty BlockDecoders")
+alloc("receiver::objectreceiver::ObjectReceiver::push_to_block2|alloc|VecDeque::resize_with(&self.blocks, (block_offset + 1), fn BlockDecoder::new)",
+      "dominated by block_offset <= 2 * MAX_PREALLOCATED_BLOCKS", [("guard", "receiver::objectreceiver::ObjectReceiver::push_to_block2", r"block_offset <= \(2 \* 2048\)|block_offset <= 4096")])
+alloc("receiver::blockwriter::BlockWriter::init_decoder|alloc|Vec::resize(&self.buffer, <impl [T]>::len(&data), 0)",
+      "scratch buffer of the size of the first decoded block, itself subject to the block allocation limit of push_to_block2")
+for d in ("DecompressDeflate", "DecompressGzip", "DecompressZlib"):
+    alloc("receiver::uncompress::%s::new|alloc|RingBuffer::new((<impl [T]>::len(&pkt) * 2))" % d, "twice the first decoded block (same bound)")
+alloc("tools::ringbuffer::RingBuffer::new|alloc|vec::from_elem(0, size)", "size is the argument reviewed at the three call sites above")
+alloc("fec::rscodec::RSGalois8Codec::new|alloc|vec::from_elem(Option::None{}, (nb_source_symbols + nb_parity_symbols))",
+      "reached only after ReedSolomon::new(k, p) returned Ok, which requires k + p <= 256", [("guard_call_before", "fec::rscodec::RSGalois8Codec::new", r"ReedSolomon.*::new$")])
+
+# =================================================================================================================================================
+LOOPS.update({
+    "common::lct::get_ext": "shrinking slice: every iteration re-binds lct_ext_ext = &lct_ext_ext[hel..] with 1 <= hel <= len (hel == 0 and hel > len return Err); the loop "
+                            "ends when fewer than 4 bytes remain",
+    "receiver::blockwriter::BlockWriter::decode_write_pkt": "offset grows by the bytes accepted by the decoder and the loop ends at offset == pkt.len(); two consecutive "
+                                                          "iterations that accept 0 bytes return Err (fix F7), so offset strictly increases every second iteration",
+    "receiver::blockwriter::BlockWriter::decoder_read": "every iteration reads size >= 1 decoded bytes from the decompressor (size == 0 and WouldBlock return) and hands them to the writer; the "
+                                                      "compressed input held by the ring buffer is finite and nothing refills it inside the loop",
+    "receiver::receiver::Receiver::gc_object_error": "drain: every iteration removes one element (pop_first) of the set whose length the loop condition compares with the configured maximum; "
+                                                   "nothing inserts into objects_error inside the loop",
+})
